@@ -9,13 +9,13 @@ class Inspections(PipelineBase):
         PipelineBase.__init__(self,**kw); self.ninsp=ninsp
         self.bounds={'layout':'1 step (threshold 1, one functionary), %d inspection(s)'%ninsp,
                      'failure_knobs':'owner signature validity free; layout expired or not; step link absent/present with free signature validity; step rules: none / DISALLOW * on products / REQUIRE of an absent material / MATCH against the not-yet-existing link of the inspection followed by DISALLOW *',
-                     'inspection_run':'stub returns Err, or a link with any i32 exit status, products {} or {x}, under inspection rules none / DISALLOW * on products',
+                     'inspection_run':'stub returns Err, or a link without exit status (what runlib records for an empty command; counts as not having exited successfully), or a link with any i32 exit status, products {} or {x}, under inspection rules none / DISALLOW * on products',
                      'hash_map_iteration':'every permutation'}
         self.witnesses=['ok_all_pass','err_before_inspection_no_events','err_inspection_rule','ran_inspection']
     def inspection_result(self,run,name,a):
         g=run.ghost['insp'][name]
         if g['fail']: return err(self.b.variant('Error','RunLibError',[mk_string('spawn failed',True)]))
-        ld=LinkD(name,{},dict(g['products']),Int(32,True,g['rv']))
+        ld=LinkD(name,{},dict(g['products']),None if g['none'] else Int(32,True,g['rv']))
         return ok(self.b.metablock(self.b.wrap_link(self.mk_link(run,ld)),[]))
     def mk_args(self,run):
         b=self.b; F0,OWN=0,1
@@ -37,12 +37,14 @@ class Inspections(PipelineBase):
             nm='i%d'%i
             fail=bool(run.pick(2,'insp_fail%d'%i))
             rv=z3.BitVec('rv_%d'%i,32)
+            nostatus=bool(run.pick(2,'insp_nostatus%d'%i)) if not fail else False      # the link carries no exit status (runlib: empty command)
             prods={'x':[z3.BitVec('ix_%d'%i,8)]} if run.pick(2,'insp_prod%d'%i) else {}
             ir=run.pick(2,'insp_rules%d'%i)
             d=InspD(nm)
             if ir==1: d.exp_prod=[b.rule('Disallow','*')]; d.exp_prod_json=[['DISALLOW','*']]
-            gi={'fail':fail,'rv':rv,'products':prods,'rules_fail':(ir==1 and bool(prods)),'name':nm}
-            d.dyn_run=(lambda gi: (lambda m: ['/nonexistent-command-for-replay'] if gi['fail'] else ['sh','-c',('touch x; ' if gi['products'] else '')+'exit %d'%model_value(m,gi['rv'])]))(gi)
+            if nostatus and prods: raise Infeasible()       # natively an empty command cannot create products
+            gi={'fail':fail,'rv':rv,'products':prods,'rules_fail':(ir==1 and bool(prods)),'name':nm,'none':nostatus}
+            d.dyn_run=(lambda gi: (lambda m: ['/nonexistent-command-for-replay'] if gi['fail'] else ([] if gi['none'] else ['sh','-c',('touch x; ' if gi['products'] else '')+'exit %d'%model_value(m,gi['rv'])])))(gi)
             run.ghost['insp'][nm]=gi; ig.append(gi); insps.append(d)
         lay=LayoutD([F0],[step],insps,expires=PAST if expired else FAR_FUTURE)
         lb=BlockD('layout',lay,[osig]); caller=[(OWN,OWN)]
@@ -68,7 +70,7 @@ class Inspections(PipelineBase):
                 rec['viol']={'kind':'inspection_order','known_key':None,'scenario':None,'predicted':'ok','what':'inspections not executed in layout order'}; return rec
         if oc=='ok':
             ran_all=len([e for e in events if e[0]=='run'])==len(g['insp'])
-            nonzero=z3.Or(*[gi['rv']!=0 for gi in g['insp']]) if g['insp'] else z3.BoolVal(False)
+            nonzero=z3.Or(*[z3.Or(gi['rv']!=0,z3.BoolVal(gi['none'])) for gi in g['insp']]) if g['insp'] else z3.BoolVal(False)
             bad=z3.Or(z3.Not(stages_ok),z3.BoolVal(not ran_all),z3.BoolVal(any(gi['fail'] or gi['rules_fail'] for gi in g['insp'])),nonzero)
             pats={'inspection_exit_status_ignored':z3.And(stages_ok,z3.BoolVal(ran_all and not any(gi['fail'] or gi['rules_fail'] for gi in g['insp'])),nonzero)}
             if self.classify(run,rec,z3.And(bad,small),pats,mk,'ok','verification succeeds although a stage failed, an inspection did not run, an inspection rule fails or an inspection command exited non-zero','inspection_failure_not_fatal'): return rec
